@@ -377,7 +377,8 @@ Definition real_pow (a b : real) : res (Exact real) :=
    the exact Pi-pattern arithmetic of Exact<Real>::mul *)
 
 Inductive angle_unit :=
-| URadian | UCircle | UDegree | UArcmin | UArcsec | URightangle | UGradian.
+| URadian | UCircle | UDegree | UArcmin | UArcsec | URightangle | UGradian
+| UQuadrant | UQuintant | USextant | UZodiacSign | UMilliarcsec.
 
 Definition unit_in_pi (u : angle_unit) : option Q :=
   match u with
@@ -388,6 +389,11 @@ Definition unit_in_pi (u : angle_unit) : option Q :=
   | UArcsec => Some (2 * (1 # 360) * (1 # 60) * (1 # 60))%Q
   | URightangle => Some (2 * (1 # 360) * 90)%Q
   | UGradian => Some (2 * (1 # 360) * 90 * (1 # 100))%Q
+  | UQuadrant => Some (2 * (1 # 4))%Q
+  | UQuintant => Some (2 * (1 # 5))%Q
+  | USextant => Some (2 * (1 # 6))%Q
+  | UZodiacSign => Some (2 * (1 # 12))%Q
+  | UMilliarcsec => Some (2 * (1 # 360) * (1 # 60) * (1 # 60) * (1 # 1000))%Q
   end.
 
 Definition angle_to_rad (u : angle_unit) (x : Q) : real :=
